@@ -397,7 +397,8 @@ impl Parser {
 
         let x = self.get_env_elements(false)?;
 
-        if self.expect(TokenKind::Underline) {
+        // `_, :{ … }:` and `_, _x` are two environments of a list, not the `_,X` shorthand
+        if x.is_empty() || self.expect(TokenKind::Underline) {
             self.pos = pstn;
             self.curr_tkn = self.token_list[pstn].clone();
             return Ok(None)
